@@ -129,7 +129,7 @@ RESERVED = ["{", "}", "[", "]", '"', "\\"]
 def gen_value(rng, d, eq, nonascii=False):
     al = ["a", "b", "Z", "0", "9", "x", " ", "\\x3b", "\\"] + RESERVED + list(d) + list(eq) + ["\t", "\n", "'", "~"]
     if nonascii:
-        al = al + ["é", "€", "ß"]
+        al = al + ["é", "€", "ß", "\U0001f600", "\u00ff", "\u0100"]
     n = rng.choice([0, 1, 2, 3, 4, 6, 9])
     return "".join(rng.choice(al) for _ in range(n))
 
@@ -183,7 +183,7 @@ def gen_nested_mapping(rng, d, eq, depth, none_in_lists=False):
 
 
 def non_ascii_case(c):
-    """classifier of known finding C17-e: some text of the case is outside ASCII"""
+    """some text of the case is outside ASCII"""
     def na(x):
         if isinstance(x, str):
             return any(ord(ch) > 127 for ch in x)
@@ -196,12 +196,7 @@ def non_ascii_case(c):
     return na(c)
 
 
-def non_ascii_value(c):
-    """classifier of known finding C17-e: some *value* of the mapping is outside ASCII"""
-    return isinstance(c.get("m"), dict) and non_ascii_case(list(c["m"].values()))
-
-
-CLASSIFIERS = {"non_ascii_value": non_ascii_value}
+CLASSIFIERS = {}
 
 
 # ---------------------------------------------------------------------------
@@ -370,7 +365,8 @@ def check_dict_roundtrip(c):
 
 def check_protected(c):
     """reserved characters in values are protected: the value part of every entry contains no
-    delimiter, equal tag, brace, bracket or quote, and a backslash only in front of `x`"""
+    delimiter, equal tag, brace, bracket or quote, and a backslash only in front of `x`, `u` or `U`
+    (the `\\xNN` / `\\uNNNN` / `\\UNNNNNNNN` notation)"""
     sd = impl()[4]
     d, eq = c["d"], c["eq"]
     for k, v in c["m"].items():
@@ -379,7 +375,7 @@ def check_protected(c):
             return {"entry": [k, v], "got": list(r)}
         ev = r[1][len(k + eq):]
         bad = [ch for ch in ev if ch in '{}[]"' or ch in d or ch in eq]
-        if bad or any(ch == "\\" and ev[i + 1:i + 2] != "x" for i, ch in enumerate(ev)):
+        if bad or any(ch == "\\" and ev[i + 1:i + 2] not in ("x", "u", "U") for i, ch in enumerate(ev)):
             return {"entry": [k, v], "text": r[1], "unprotected": bad}
     return None
 
@@ -826,6 +822,8 @@ def _dict_valid(c):
 
 def safe_seps(d, eq):
     bad = set("\\x0123456789abcdef")  # as hypothesis SafeSep of C17_dict_roundtrip
+    if any(ord(ch) > 0xFF for ch in d + eq) and (set(d + eq) & set("uU")):
+        return False  # hypothesis WideOk: with a separator character above U+00FF the notation \uNNNN / \UNNNNNNNN appears
     return bool(d) and bool(eq) and not (set(d) & bad) and not (set(eq) & bad) and not (set(d) & set(eq))
 
 
@@ -889,7 +887,6 @@ def witness_fails(finding):
 # ---------------------------------------------------------------------------
 def run(ctx):
     n = ctx.budget(3000, 60000)
-    known_e = lambda c, bad=None: "C17-e" if non_ascii_value(c) else None  # noqa
 
     # ---- B1: split_with_escape, random
     rng = ctx.rng("split")
@@ -1024,7 +1021,7 @@ def run(ctx):
         d, eq = rng.choice(SAFE_DELIMS), rng.choice(SAFE_EQS)
         if rng.random() < 0.1:
             d = rng.choice(["a", "5", "x", "\\", "€", "="])
-        rts.append({"m": gen_flat(rng, d, eq, nonascii=rng.random() < 0.1, clean=rng.random() < 0.85), "d": d, "eq": eq})
+        rts.append({"m": gen_flat(rng, d, eq, nonascii=rng.random() < 0.3, clean=rng.random() < 0.85), "d": d, "eq": eq})
     ctx.correspond("esc.rt", rts, rt_line, rt_impl, nontrivial=lambda c: len(c["m"]) > 0)
     dr = [c for c in rts if _dict_valid(c)]
     for d in SAFE_DELIMS + ["A", "\u20ac", "F;"]:  # the whole reserved alphabet, one character at a time, every safe separator pair
@@ -1032,8 +1029,11 @@ def run(ctx):
             if safe_seps(d, eq):
                 for ch in RESERVED + list(d) + list(eq) + ["\t", "\n", "\r", "\x00", "\x7f", "a", "'"]:
                     dr.append({"m": {"k": ch, "j": "a" + ch + ch + "b"}, "d": d, "eq": eq})
-    ctx.evaluate("dict_roundtrip", dr, check_dict_roundtrip, in_known=known_e, nontrivial=lambda c: len(c["m"]) > 0)
-    ctx.evaluate("protected", [c for c in dr if not non_ascii_value(c)], check_protected, nontrivial=lambda c: len(c["m"]) > 0)
+    for d, eq in (("\u20ac", "="), (";", "\u00e9"), ("\U0001f600", ":"), ("\u20ac;", "=>")):  # reserved characters outside ASCII (fix C17-e)
+        for ch in list(d) + list(eq) + ["\u00e9", "\u20ac", "\U0001f600", "\\", "\u00ff", "\u0100"]:
+            dr.append({"m": {"k": ch, "j": "a" + ch + ch + "\\" + ch}, "d": d, "eq": eq})
+    ctx.evaluate("dict_roundtrip", dr, check_dict_roundtrip, nontrivial=lambda c: len(c["m"]) > 0)
+    ctx.evaluate("protected", dr, check_protected, nontrivial=lambda c: len(c["m"]) > 0)
     # ---- C: nested mappings serialise
     rng = ctx.rng("nested")
     ns = []
